@@ -5,6 +5,7 @@ CONSTANTS
   Direct = FALSE
   Keep = 1
   NLoads = 0
+  Abandon = TRUE
   Toggle = TRUE
   RemoveDeletesEntry = TRUE
   VersionGuard = TRUE
